@@ -25,6 +25,7 @@ LEVEL_TEXT = (
     "intervals and the shift formula are checked by normal form and interval folding of the integer draws. "
     "Which candidates minimise a particular surrogate, and argmin ties, are runtime values and not decided."
     " The substitution rules of the BaseSampler.sample wrapper (C12) are included: what replaces a duplicate comes from the sampler's own sample_batch, never from another distribution."
+    " The grid constructor rule (consecutive grid values differ by the precision; C15-R3 without the 1e-7 end-point clause) is included: 'displaced by k precision steps' presupposes it."
 )
 TECHNIQUE = "interprocedural flow-sensitive alias/mutation analysis + formula normal form + interval folding"
 
